@@ -75,6 +75,12 @@ def c11_2(ctx):
     _refcheck(ctx, BECH, "decode", "bm_decode", "decode")
     _refcheck(ctx, BECH, "bech32_decode", "bm_bech32_decode", "bech32-decode")
     g = ctx.func(BECH, "bech32_decode")
+    # mixed case is the only case rule: str.islower() / str.isupper() are False for a string without cased characters (an HRP of
+    # digits or punctuation with a data part drawn from the digits of the charset), so a test built on them refuses such strings
+    wg = sym.walk(ctx, g)
+    case_ops = sorted({o for e in wg.exits for o in (gi.f_opaques(e.cond) if e.cond not in (True, False) else []) if isinstance(o, str) and (".islower()" in o or ".isupper()" in o)})
+    ctx.check(not case_ops, "case-rule-by-comparison", ctx.where(g), "bech32_decode decides on `%s`: islower()/isupper() are False for strings without cased characters, which are then refused as if they were mixed case"
+              % (case_ops[:1] or [""])[0][:80], sample={"atoms": case_ops[:2], "exits": len(wg.exits)})
     a = g.node.args
     ctx.check(len(a.defaults) == 1 and df.const_int(a.defaults[0]) == 90, "max-length-default", ctx.where(g), "max_length default is not 90")
     _refcheck(ctx, BECH, "convertbits", "bm_convertbits", "padding-rules")
